@@ -244,6 +244,23 @@ fn reject<T: Tier + Dom<M = Sh>>(rep: &mut Report) {
                 let _ = perspective(Rad(c(fv)), c(asp), c(n), c(f));
             }));
         }
+        // values of the scalar type that are not inside (0, pi) although no ordering test says they are below or above it
+        for (what, fv) in [("fovy=NaN", f64::NAN), ("fovy=+inf", f64::INFINITY), ("fovy=-inf", f64::NEG_INFINITY)] {
+            add(format!("perspective {what} ({asp},{n},{f})"), true, std::sync::Arc::new(move || {
+                let _ = perspective(Rad(c(fv)), c(asp), c(n), c(f));
+            }));
+            add(format!("perspective Deg {what} ({asp},{n},{f})"), true, std::sync::Arc::new(move || {
+                let _ = perspective(Deg(c(fv)), c(asp), c(n), c(f));
+            }));
+            add(format!("PerspectiveFov.into() {what} ({asp},{n},{f})"), true, std::sync::Arc::new(move || {
+                let _: Matrix4<T> = PerspectiveFov { fovy: Rad(c(fv)), aspect: c(asp), near: c(n), far: c(f) }.into();
+            }));
+        }
+        for (what, fv) in [("fovy=0", 0.0), ("fovy=pi", pi_t)] {
+            add(format!("PerspectiveFov.into() {what} ({asp},{n},{f})"), true, std::sync::Arc::new(move || {
+                let _: Matrix4<T> = PerspectiveFov { fovy: Rad(c(fv)), aspect: c(asp), near: c(n), far: c(f) }.into();
+            }));
+        }
         add(format!("perspective aspect=0 ({fov},{n},{f})"), true, std::sync::Arc::new(move || {
             let _ = perspective(Rad(c(fov)), c(0.0), c(n), c(f));
         }));
@@ -285,6 +302,11 @@ fn reject<T: Tier + Dom<M = Sh>>(rep: &mut Report) {
             let _ = planar(Rad(c(fov)), c(asp), c(h), c(n), c(f));
         }));
         for (what, fv) in [("fovy=pi", pi_t), ("fovy=-pi", -pi_t), ("fovy>pi", 3.5), ("fovy<-pi", -3.5)] {
+            add(format!("planar {what} ({asp},{h},{n},{f})"), true, std::sync::Arc::new(move || {
+                let _ = planar(Rad(c(fv)), c(asp), c(h), c(n), c(f));
+            }));
+        }
+        for (what, fv) in [("fovy=+inf", f64::INFINITY), ("fovy=-inf", f64::NEG_INFINITY)] {
             add(format!("planar {what} ({asp},{h},{n},{f})"), true, std::sync::Arc::new(move || {
                 let _ = planar(Rad(c(fv)), c(asp), c(h), c(n), c(f));
             }));
